@@ -782,6 +782,49 @@ TASKS = [
     Task("mrq_policy_loss[batch 1]", batch1(h_mrq_policy_loss)),
 ]
 
-TRUSTED = []
-ASSUMPTIONS = []
-NOT_COVERED = []
+TRUSTED = [
+    "lemma deriv_exp (ASSUMED, not machine-checked): for c independent of lambda, d/dlambda [exp(lambda) * c] = exp(lambda) * c; "
+    "used once, in sac_exploration_loss.post.gradient_closed_form / post.sign.*, after its premise L == exp(lambda) * c "
+    "(post.closed_form) and the independence of log pi and the target from log_alpha have been discharged",
+    "lemma PyvcSum.sum_affine (lemmas/SumLemmas.lean): sum_j (k * g_j + c) = k * sum_j g_j + n * c; premise obliged as *.lemma_premise[sum_affine]",
+    "lemma PyvcSum.sum_congr_range (lemmas/SumLemmas.lean): Sum-congruence rule of the engine",
+    "point axioms of exp used by z3: exp > 0, exp(0) = 1, strictly increasing (pyvc.tensor.AXIOMS / state.MONOTONE)",
+    "stochastic policy stub pyvc.StubStochasticPolicy (pyvc/lib/ext_policy_stub.py): sample / log_probability / entropy are row-wise "
+    "functions of (parameters, observation row, action row | key, position) returning one action row / one value per observation",
+    "flat value network pyvc.FlatValueNet: row-wise network with output shape (N,)",
+    "modular stub of avg_l1_norm in the TD7 tasks: row-wise function of its input row (its closed form is not needed for C12)",
+    "nnx.value_and_grad model (pyvc/lib/nnx_model.py): returns (f(*args), Grad(wrt=args[argnums])); gdeps ghost for differentiable dependence",
+    "nnx.Optimizer.update model: new parameters for exactly the leaf networks of the module passed to update",
+]
+ASSUMPTIONS = [
+    "reals for floats",
+    "networks are row-wise functions of their parameters (no BatchNorm / Dropout), DESIGN 3.3",
+    "policy heads are abstracted by the stub interface documented in StochasticPolicyBase; that sample / log_probability / entropy of the "
+    "concrete heads describe one distribution and return one value per observation is C13's subject (note: GaussianTanhPolicy.entropy "
+    "returns one value per action DIMENSION, so 'mean H' in ppo_loss then averages over N*A entries)",
+    "ppo_loss: coefficients 0.5 (value term) and 0.01 (entropy bonus) are taken from DESIGN C12 (iv) / the PPO paper's c1, c2; the docstring names no coefficients",
+    "PPO zero-gradient claim: an objective that coincides on an OPEN region of parameter space with an expression free of the policy "
+    "parameters has zero policy gradient there; coincidence with the unclipped surrogate on an open region containing r == 1 gives equal gradients at unchanged parameters",
+    "temperature step: lambda' = lambda - eta * dL/dlambda with an arbitrary step size eta > 0 (SGD; the first Adam step has eta = lr / (|g| + eps) > 0)",
+    "log_alpha has shape (1,) as created by EntropyControl (jnp.zeros(1))",
+    "gradient obligations are structural (which object is differentiated, what the value depends on differentiably, which parameters an "
+    "optimizer step changes); numeric gradient values are compared only by the replay driver (jax reference with constant weights)",
+]
+NOT_COVERED = [
+    "numeric gradient values (only structure, sign and zero/non-zero)",
+    "update_ppo (argnums=(0, 1), GAE: C07) and mrq.update_critic_and_policy (covered through mrq_policy_loss only)",
+    "EntropyControl.__init__ (target entropy -dim(A), optimizer construction)",
+    "train_policy_a2c: the standardisation of the advantages is not documented; only the gradient / update structure is checked",
+    "the concrete tfp-based policy heads (C13)",
+]
+REPLAY = {"": "c12_actor"}
+EXPLANATION = (
+    "Each actor objective of rl_blox is interpreted from source on symbolic batches (symbolic N, D_obs, D_act; batch size 1 as separate tasks) "
+    "with uninterpreted row-wise networks and a stub stochastic policy, and proved equal to the documented formula by the Sum-congruence rule. "
+    "Gradient claims use the gradient-flow ghost: argnums selects the policy / actor / log_alpha, the loss depends differentiably on it, the weights "
+    "seen inside the differentiated pseudo-loss do not depend on the policy, and the optimizer step changes only the differentiated object's parameters. "
+    "PPO: equality with the unclipped surrogate on the open unclipped region, equality with a parameter-free expression on the open region where every "
+    "sample is clipped on the side its advantage favours, per-sample case analysis of the documented objective, value term for critic outputs (N,) and (N,1). "
+    "SAC temperature: loss == -exp(lambda) * (mean log pi + H_target) (sum_affine rule), derivative by the trusted deriv_exp lemma, and the sign claim "
+    "alpha' > alpha <=> -mean log pi < H_target proved in real arithmetic with the exp axioms."
+)
